@@ -423,7 +423,11 @@ func cmdStress(args []string) {
 			if err != nil {
 				vh.Die("%s", err)
 			}
+			lb.ArgsTampered()
 			outs, finished, stacks := lb.RunConcurrently(root, programs, watchdog)
+			if t := lb.ArgsTampered(); t != "" && finished {
+				rep.Mismatch(vh.Mismatch{Case: map[string]interface{}{"root": where, "goroutines": n, "aspect": "isolation"}, What: "isolation: " + t})
+			}
 			rep.Class(fmt.Sprintf("goroutines:%d", n))
 			rep.Class("root:" + where)
 			var names []string
